@@ -91,7 +91,7 @@ def gen_cases(ctx, out):
             stats.append({"cfg": cfg, "behaviours": len(cases), "exhaustive": not sim, "states": r.distinct, "generated": r.generated})
         ticks = 0
         if thorough:
-            ticks = 400
+            ticks = 1500
             for k in range(ticks):
                 f.write('{"tick":%d}\n' % (k + 1))
     return n, ticks, stats
